@@ -288,3 +288,43 @@ def t1_common(site):
         if len(a) == 2 and a[1][0] == "agg" and a[1][1].endswith("RangeFull::RangeFull"):
             return "full-range slice `x[..]` cannot fail"
     return None
+
+
+def site_guards(site):
+    """normalised dominating guards of a site as strings `polarity: condition`"""
+    from . import paths
+    eb = ExprBuilder(site.body)
+    out = []
+    for g in paths.guards(site.body, site.bb, eb):
+        out.append("%s: %s" % (g[0], show(g[1]) if len(g) > 1 and isinstance(g[1], tuple) else str(g[1:])))
+    # a closure runs only where it is constructed/used: add the guards of its construction site
+    b = site.body
+    prog = getattr(b, "program", None)
+    depth = 0
+    while prog is not None and b is not None and b.kind == "Closure" and depth < 4:
+        par = prog.bodies.get(getattr(b, "direct_parent", None) or b.parent)
+        if par is None:
+            break
+        peb = ExprBuilder(par)
+        for bb, i, st in par.iter_stmts():
+            if st["k"] == "assign" and st["rv"]["k"] == "aggregate" and st["rv"]["kind"].get("def") == b.path:
+                for g in paths.guards(par, bb, peb):
+                    out.append("parent %s: %s" % (g[0], show(g[1]) if len(g) > 1 and isinstance(g[1], tuple) else str(g[1:])))
+        b = par
+        depth += 1
+    return out
+
+
+def t2_match(ent, site, extra_text=""):
+    """an audited (T2) entry is (shape regex, reason[, [guard regexes]]): the site's name-normalised
+    expression must still match the shape, and every guard the audit relies on must still dominate
+    the site.  Returns (ok, why-not)."""
+    rx = ent[0]
+    if not re.search(rx, site.shape() + extra_text):
+        return False, "audited site changed shape: expected /%s/ in `%s`" % (rx, site.shape()[:200])
+    if len(ent) > 2:
+        gs = site_guards(site)
+        for grx in ent[2]:
+            if not any(re.search(grx, g) for g in gs):
+                return False, "the guard the audit relies on (/%s/) no longer dominates the site; dominating guards are %s" % (grx, [g[:80] for g in gs])
+    return True, None
